@@ -645,8 +645,9 @@ class MutableMixin:
             holy grail |     |X   |
         """
         self._objects.add(obj)
-        properties = set(properties)
+        properties = list(properties)
         self._properties |= properties
+        properties = set(properties)
         pairs = self._pairs
         for p in self._properties:
             if p in properties:
@@ -681,8 +682,9 @@ class MutableMixin:
             holy grail |X    |
         """
         self._properties.add(prop)
-        objects = set(objects)
+        objects = list(objects)
         self._objects |= objects
+        objects = set(objects)
         pairs = self._pairs
         for o in self._objects:
             if o in objects:
